@@ -13,3 +13,17 @@ func EmitPattern(n int, newlines bool) []byte {
 	}
 	return b
 }
+
+// EmitPatternCR is the pattern with a CR LF pair or a lone CR every 61 bytes.
+func EmitPatternCR(n int) []byte {
+	b := EmitPattern(n, false)
+	for i := range b {
+		switch {
+		case i%61 == 59:
+			b[i] = '\r'
+		case i%61 == 60 && (i/61)%2 == 0:
+			b[i] = '\n'
+		}
+	}
+	return b
+}
